@@ -10,8 +10,9 @@
     * `Line.toks ts`      — any other non-empty line, as its whitespace-separated items, each classified by
                             what Python does with it: `nat n` (`str.isdigit()` and `int()` succeed),
                             `udigit` (`isdigit()` holds but `int()` raises ValueError, e.g. '²'),
-                            `dec r` (not all digits, `Decimal()` gives the finite value r),
-                            `nan` (`Decimal()` gives a NaN), `bad` (`Decimal()` raises InvalidOperation).
+                            `dec r` (not all digits; `Decimal()`, or `Fraction()` when the item contains '/',
+                            gives the finite value r), `nan` (`Decimal()` gives a NaN),
+                            `bad` (`Decimal()` / `Fraction()` raises: InvalidOperation, ValueError, ZeroDivisionError).
 
   Lexing itself (strip, split, '#' comments, quotes, `str(weight)`, `Decimal(text)`) is NOT modelled: the
   harness tokenises real text with Python's own predicates and compares writer and parser with this model on the
@@ -64,7 +65,7 @@ deriving DecidableEq, Repr
 def weightTok : Weight → Tok
   | .int z => if 0 ≤ z then .nat z.toNat else .dec (z : Rat)
   | .decimal r digits => if digits then .nat r.num.toNat else .dec r
-  | .fraction r => if r.den = 1 then (if 0 ≤ r.num then .nat r.num.toNat else .dec r) else .bad
+  | .fraction r => if r.den = 1 ∧ 0 ≤ r.num then .nat r.num.toNat else .dec r      -- 'p/q' is read back by Fraction()
 
 /-- `_get_withdrawn_inds` (L64-68) -/
 def wdFrom : Nat → List (String × Bool) → List Nat
@@ -90,32 +91,32 @@ def dumpBlt (d : Doc Weight) : List Line :=
 /-- a parsed item of a number line -/
 inductive Num where
   | nat (n : Nat)
-  | dec (r : Rat)
-  | nan
+  | dec (r : Rat)              -- Decimal or Fraction: only the value matters below (L187-193 turns a mixed
+                               -- Decimal / Fraction sum into Fractions, exactly)
 deriving DecidableEq, Repr, Inhabited
 
 def Num.val : Num → Rat
   | .nat n => (n : Rat)
   | .dec r => r
-  | .nan => 0
 
-/-- the item loop of `_parse_numline` (L255-263); `i0` = "this is item 0" -/
+/-- the item loop of `_parse_numline` (L265-279); `i0` = "this is item 0".  Every refusal of `int()`, `Decimal()`,
+    `Fraction()` and a NaN (`num != num`) is caught and re-raised as BLTParseError. -/
 def parseItems (allowDec : Bool) : Bool → List Tok → Except Err (List Num)
   | _, [] => pure []
   | i0, t :: ts => do
       let x ← (match t with
         | .nat n => pure (Num.nat n)
-        | .udigit => throw (Err.other "ValueError")            -- isdigit() but int() refuses
+        | .udigit => throw Err.parseError                      -- isdigit() but int() refuses: ValueError, caught
         | .dec r => if i0 && allowDec then pure (Num.dec r) else throw Err.parseError
-        | .nan => if i0 && allowDec then pure Num.nan else throw Err.parseError
-        | .bad => if i0 && allowDec then throw (Err.other "InvalidOperation") else throw Err.parseError)
+        | .nan => throw Err.parseError                         -- `num != num`
+        | .bad => throw Err.parseError)
       let xs ← parseItems allowDec false ts
       pure (x :: xs)
 
 /-- `_parse_numline` (L246-264) -/
 def parseNumline (allowDec : Bool) : Line → Except Err (List Num)
   | .blank => pure []
-  | .quoted _ => if allowDec then throw (Err.other "InvalidOperation") else throw Err.parseError
+  | .quoted _ => throw Err.parseError                  -- its first item starts with '"': never a number
   | .toks ts => parseItems allowDec true ts
 
 /-- `_parse_header` (L144-155) -/
@@ -147,9 +148,8 @@ def parseBody : List Line → RawBallots → List Rat → Bool → Except Err (R
       match result with
       | [] => parseBody rest ballots withdrawn seen                      -- L166-167
       | first :: more =>
-        if more.isEmpty && first ≠ Num.nan && first.val = 0 then         -- L168: result == [0]
+        if more.isEmpty && first.val = 0 then                            -- L168: result == [0]
           pure (ballots, withdrawn, rest)
-        else if first = Num.nan then throw (Err.other "InvalidOperation")   -- L171: NaN < 0 signals
         else if first.val < 0 then                                       -- L171-176
           if seen then throw Err.parseError
           else parseBody rest ballots (withdrawn ++ result.map (fun n => -n.val)) seen
@@ -193,26 +193,23 @@ def formFrom (withdrawn : List Rat) : Nat → List String → List (String × Bo
 def formCandidates (names : List String) (withdrawn : List Rat) : List (String × Bool) :=
   formFrom withdrawn 0 names
 
-/-- Python `cands[i-1]` for `i ≥ 0`: `i = 0` is index -1, the LAST candidate; `i > len` raises IndexError -/
-def pyIndex (n i : Nat) : Except Err Nat :=
-  if i = 0 then (if n = 0 then throw (Err.other "IndexError") else pure (n - 1))
-  else if i ≤ n then pure (i - 1) else throw (Err.other "IndexError")
-
-def deindexOne (n : Nat) : List Nat → Except Err (List Nat)
-  | [] => pure []
-  | i :: t => do let j ← pyIndex n i; let js ← deindexOne n t; pure (j :: js)
+/-- `all(1 <= i <= len(cands) for i in ballot)` for every ballot (L139-141) -/
+def allInRange (n : Nat) (bs : List (List Nat × Rat)) : Bool :=
+  bs.all (fun b => b.1.all (fun i => decide (1 ≤ i) && decide (i ≤ n)))
 
 /-- dict-comprehension assignment: a later equal key overwrites the value, keeps the first position -/
 def setBallot : List (List Nat × Rat) → List Nat → Rat → List (List Nat × Rat)
   | [], b, w => [(b, w)]
   | (b', w') :: t, b, w => if b' = b then (b', w) :: t else (b', w') :: setBallot t b w
 
-/-- `_deindex_ballots` (L135-141) -/
-def deindex (n : Nat) : RawBallots → List (List Nat × Rat) → Except Err (List (List Nat × Rat))
-  | [], acc => pure acc
-  | (b, w) :: t, acc => do
-      let b' ← deindexOne n b
-      deindex n t (setBallot acc b' w)
+/-- the dict comprehension of `_deindex_ballots` (L142-145), after the range check: `cands[i-1]` -/
+def deindexAll : RawBallots → List (List Nat × Rat) → List (List Nat × Rat)
+  | [], acc => acc
+  | (b, w) :: t, acc => deindexAll t (setBallot acc (b.map (· - 1)) w)
+
+/-- `_deindex_ballots` (L135-145) -/
+def deindex (n : Nat) (bs : RawBallots) : Except Err (List (List Nat × Rat)) :=
+  if allInRange n bs then pure (deindexAll bs []) else throw Err.parseError
 
 /-- `load_lines` (L91-112) with `oneplus_weights=False` -/
 def loadBlt : List Line → Except Err (Doc Rat)
@@ -223,7 +220,7 @@ def loadBlt : List Line → Except Err (Doc Rat)
       let (names?, title) ← parseStrings rest' nCands
       let names := names?.getD (numericCandidates nCands)
       let cands := formCandidates names withdrawn
-      let trueBallots ← deindex cands.length ballots []
+      let trueBallots ← deindex cands.length ballots
       pure { nSeats := nSeats, cands := cands, ballots := trueBallots, title := title }
 
 /-! ### well-formedness of a document handed to the writer -/
@@ -231,10 +228,9 @@ def loadBlt : List Line → Except Err (Doc Rat)
 def weightOK : Weight → Bool
   | .int z => 0 ≤ z
   | .decimal r digits => 0 ≤ r && (!digits || r.den = 1)
-  | .fraction r => 0 ≤ r && r.den = 1
+  | .fraction r => 0 ≤ r
 
-/-- ballots name listed candidates, are pairwise different (dict keys), weights are non-negative and have a
-    BLT spelling (no proper fractions) -/
+/-- ballots name listed candidates, are pairwise different (dict keys), weights are non-negative -/
 def WFdoc (d : Doc Weight) : Bool :=
   d.ballots.all (fun b => b.1.all (· < d.cands.length) && weightOK b.2)
   && decide (d.ballots.map (·.1)).Nodup
@@ -242,31 +238,5 @@ def WFdoc (d : Doc Weight) : Bool :=
 def eraseDoc (d : Doc Weight) : Doc Rat :=
   { nSeats := d.nSeats, cands := d.cands, ballots := d.ballots.map (fun b => (b.1, b.2.val)), title := d.title }
 
-
-/-! ### lexical sanity of a text (hypothesis of `blt_parse_total_partial`) -/
-
-/-- the item is a number for Python: all digits accepted by `int()`, or a finite Decimal -/
-def Tok.isNum : Tok → Bool
-  | .nat _ | .dec _ => true
-  | _ => false
-
-/-- the end-of-ballots marker as `_parse_body` recognises it (`result == [0]`) -/
-def isTerm : List Tok → Bool
-  | [.nat n] => n = 0
-  | [.dec r] => r = 0
-  | _ => false
-
-/-- every line the body loop will read (up to and including the end marker) consists of numbers -/
-def bodyLexOK : List Line → Bool
-  | [] => true
-  | .blank :: rest => bodyLexOK rest
-  | .quoted _ :: _ => false
-  | .toks ts :: rest => ts.all Tok.isNum && (isTerm ts || bodyLexOK rest)
-
-/-- header items are not exotic digits, body lines are numbers -/
-def lexOK : List Line → Bool
-  | [] => true
-  | .toks ts :: rest => ts.all (· ≠ Tok.udigit) && bodyLexOK rest
-  | _ :: rest => bodyLexOK rest
 
 end VL.Blt
